@@ -47,6 +47,9 @@ macro_rules! adapters {
             use ndarray::{Array1, Array2};
             use vengine::Obs;
             type F = $F;
+            /// values every logistic parameter check rejects (fits with huge finite values can keep the line search busy forever)
+            const BAD: [f64; 4] = [-1.0, f64::NAN, f64::INFINITY, f64::NEG_INFINITY];
+            const BAD0: [f64; 5] = [0.0, -1.0, f64::NAN, f64::INFINITY, -0.0];
 
             pub fn run(c: &Case, obs: &mut Obs) {
                 let mut k = Knobs::new(&c.knobs);
@@ -82,7 +85,7 @@ macro_rules! adapters {
                 }
                 let model = match vengine::guard(|| params.fit(&ds)) {
                     Ok(Ok(m)) => m,
-                    _ => return obs.skip("fit_failed"),
+                    _ => return obs.class("no_fitted_instance"),
                 };
                 obs.class(T);
                 obs.nontrivial();
@@ -110,7 +113,7 @@ macro_rules! adapters {
                 }
                 let model = match vengine::guard(|| params.fit(&ds)) {
                     Ok(Ok(m)) => m,
-                    _ => return obs.skip("fit_failed"),
+                    _ => return obs.class("no_fitted_instance"),
                 };
                 obs.class(T);
                 obs.nontrivial();
@@ -134,23 +137,23 @@ macro_rules! adapters {
                     .fit_intercept(k.flag())
                     .max_iter(30)
                     .tol(F::of(1e-4));
-                match k.pick(4) {
-                    0 => {}
-                    1 => params = params.link(Link::Log),
-                    2 => params = params.link(Link::Identity),
-                    _ => params = params.link(Link::Logit),
+                // only link / family pairs whose mean stays inside the family's domain for every coefficient vector
+                // (the identity link with a positive power lets the line search run into NaN and never return)
+                match (k.pick(3), power > 0.0) {
+                    (0, _) => {}
+                    (_, true) => params = params.link(Link::Log),
+                    (_, false) => params = params.link(Link::Identity),
                 }
                 let valid = match params.check() {
                     Ok(v) => v,
                     Err(_) => return obs.skip("params_invalid"),
                 };
-                // strictly positive targets (inside (0,1) for the logit link): the domain of the families used here
-                let logit = valid.link() == Link::Logit;
-                let y: Array1<F> = y1(c).mapv(|v| {
-                    let a = v.f().abs() + 0.25;
-                    F::of(if logit { a / (1.0 + a) } else { a })
-                });
-                let ds = Dataset::new(mat::<F>(&c.x), y);
+                // strictly positive targets: inside the domain of every family used here
+                let y: Array1<F> = y1(c).mapv(|v| F::of(v.f().abs() + 0.25));
+                // records scaled into (-2, 2): with the raw range the f32 line search of the Poisson / gamma fits
+                // does not terminate (exp of the linear predictor leaves the f32 range) — a hang cannot be skipped
+                let xs: Vec<Vec<f64>> = c.x.iter().map(|r| r.iter().map(|v| v / 8.0).collect()).collect();
+                let ds = Dataset::new(mat::<F>(&xs), y);
                 obs.class(P);
                 let want_fit = fit_outcome(|| valid.fit(&ds));
                 for (fmt, back) in roundtrip(obs, P, &valid, STABLE) {
@@ -165,7 +168,7 @@ macro_rules! adapters {
                 }
                 let model = match vengine::guard(|| valid.fit(&ds)) {
                     Ok(Ok(m)) => m,
-                    _ => return obs.skip("fit_failed"),
+                    _ => return obs.class("no_fitted_instance"),
                 };
                 obs.class(T);
                 obs.nontrivial();
@@ -193,7 +196,9 @@ macro_rules! adapters {
                     Ok(v) => v,
                     Err(_) => return obs.skip("params_invalid"),
                 };
-                let ds = Dataset::new(mat::<F>(&c.x), y1(c));
+                // sometimes no more rows than features: the variance estimate is then an error value inside the model
+                let rows = if k.rare() { ncols(c).min(c.x.len()) } else { c.x.len() };
+                let ds = Dataset::new(mat::<F>(&c.x[..rows]), y1(c).slice(ndarray::s![..rows]).to_owned());
                 obs.class(P);
                 let want_fit = fit_outcome(|| valid.fit(&ds));
                 for (fmt, back) in roundtrip(obs, P, &valid, STABLE) {
@@ -207,17 +212,18 @@ macro_rules! adapters {
                 }
                 let model = match vengine::guard(|| valid.fit(&ds)) {
                     Ok(Ok(m)) => m,
-                    _ => return obs.skip("fit_failed"),
+                    _ => return obs.class("no_fitted_instance"),
                 };
                 obs.class(T);
                 obs.nontrivial();
                 let zs = |m: &ElasticNet<F>| m.z_score().map_err(|e| e.to_string());
                 let cf = |m: &ElasticNet<F>| m.confidence_95th().map_err(|e| e.to_string());
-                obs.class_if(zs(&model).is_err(), "variance_is_error");
-                obs.class_if(zs(&model).is_ok(), "variance_is_ok");
                 let q = queries(c);
                 let want = observe(|| model.predict(&q));
+                // (MultiTaskElasticNet::z_score panics unless tasks == features: broadcast of the variance vector; not C19's subject)
                 let want_z = observe(|| zs(&model));
+                obs.class_if(matches!(want_z, Ok(Err(_))), "variance_is_error");
+                obs.class_if(matches!(want_z, Ok(Ok(_))), "variance_is_ok");
                 let want_c = observe(|| cf(&model));
                 for (fmt, back) in roundtrip(obs, T, &model, STABLE) {
                     must(obs, T, fmt, "hyperplane", same_arr(model.hyperplane(), back.hyperplane()));
@@ -253,9 +259,9 @@ macro_rules! adapters {
                     Err(_) => return obs.skip("params_invalid"),
                 };
                 let tasks = 1 + k.pick(3);
-                let n = c.x.len();
+                let n = if k.rare() { ncols(c).min(c.x.len()) } else { c.x.len() };
                 let y = Array2::from_shape_fn((n, tasks), |(i, t)| targets::<F>(c, t).get(i).copied().unwrap_or(F::of(0.0)));
-                let ds = Dataset::new(mat::<F>(&c.x), y);
+                let ds = Dataset::new(mat::<F>(&c.x[..n]), y);
                 obs.class(P);
                 let want_fit = fit_outcome(|| valid.fit(&ds));
                 for (fmt, back) in roundtrip(obs, P, &valid, STABLE) {
@@ -269,16 +275,17 @@ macro_rules! adapters {
                 }
                 let model = match vengine::guard(|| valid.fit(&ds)) {
                     Ok(Ok(m)) => m,
-                    _ => return obs.skip("fit_failed"),
+                    _ => return obs.class("no_fitted_instance"),
                 };
                 obs.class(T);
                 obs.nontrivial();
                 let zs = |m: &MultiTaskElasticNet<F>| m.z_score().map_err(|e| e.to_string());
-                obs.class_if(zs(&model).is_err(), "variance_is_error");
-                obs.class_if(zs(&model).is_ok(), "variance_is_ok");
                 let q = queries(c);
                 let want = observe(|| model.predict(&q));
+                // (MultiTaskElasticNet::z_score panics unless tasks == features: broadcast of the variance vector; not C19's subject)
                 let want_z = observe(|| zs(&model));
+                obs.class_if(matches!(want_z, Ok(Err(_))), "variance_is_error");
+                obs.class_if(matches!(want_z, Ok(Ok(_))), "variance_is_ok");
                 for (fmt, back) in roundtrip(obs, T, &model, STABLE) {
                     must(obs, T, fmt, "hyperplane", same_arr(model.hyperplane(), back.hyperplane()));
                     must(obs, T, fmt, "intercept", same_arr(model.intercept(), back.intercept()));
@@ -299,10 +306,10 @@ macro_rules! adapters {
                 let p = ncols(c);
                 let intercept = k.flag();
                 let mut params = LogisticRegression::<F>::default()
-                    .alpha(F::of(if k.rare() { k.palette() } else { [1.0, 0.1, 0.0][k.pick(3)] }))
+                    .alpha(F::of(if k.rare() { BAD[k.pick(BAD.len())] } else { [1.0, 0.1, 0.0, -0.0][k.pick(4)] }))
                     .with_intercept(intercept)
                     .max_iterations(1 + k.pick(40) as u64)
-                    .gradient_tolerance(F::of(if k.rare() { k.palette() } else { 1e-3 }));
+                    .gradient_tolerance(F::of(if k.rare() { BAD0[k.pick(BAD0.len())] } else { [1e-3, 1e-1][k.pick(2)] }));
                 match k.pick(4) {
                     0 | 1 => {}
                     2 => {
@@ -310,7 +317,7 @@ macro_rules! adapters {
                         obs.class("with_initial_params");
                     }
                     _ => {
-                        let bad = k.palette();
+                        let bad = [f64::NAN, f64::INFINITY, 2.0][k.pick(3)];
                         params = params.initial_params(Array1::from_shape_fn(p + intercept as usize, |i| F::of(if i == 0 { bad } else { 0.5 })));
                         obs.class("with_initial_params");
                     }
@@ -339,7 +346,7 @@ macro_rules! adapters {
                 }
                 let model = match vengine::guard(|| params.fit(&ds)) {
                     Ok(Ok(m)) => m.set_threshold(F::of([0.5, 0.25, 0.75, 0.0, 1.0][k.pick(5)])),
-                    _ => return obs.skip("fit_failed"),
+                    _ => return obs.class("no_fitted_instance"),
                 };
                 obs.class(T);
                 let q = queries(c);
@@ -379,10 +386,10 @@ macro_rules! adapters {
                 let intercept = k.flag();
                 let nclass = 2 + k.pick(2);
                 let mut params = MultiLogisticRegression::<F>::default()
-                    .alpha(F::of(if k.rare() { k.palette() } else { [1.0, 0.1, 0.0][k.pick(3)] }))
+                    .alpha(F::of(if k.rare() { BAD[k.pick(BAD.len())] } else { [1.0, 0.1, 0.0, -0.0][k.pick(4)] }))
                     .with_intercept(intercept)
                     .max_iterations(1 + k.pick(40) as u64)
-                    .gradient_tolerance(F::of(if k.rare() { k.palette() } else { 1e-3 }));
+                    .gradient_tolerance(F::of(if k.rare() { BAD0[k.pick(BAD0.len())] } else { [1e-3, 1e-1][k.pick(2)] }));
                 if k.pick(3) == 2 {
                     params = params.initial_params(Array2::from_shape_fn((p + intercept as usize, nclass), |(i, j)| F::of((i + 2 * j) as f64 * 0.125 - 0.25)));
                     obs.class("with_initial_params");
@@ -402,7 +409,7 @@ macro_rules! adapters {
                 }
                 let model = match vengine::guard(|| params.fit(&ds)) {
                     Ok(Ok(m)) => m,
-                    _ => return obs.skip("fit_failed"),
+                    _ => return obs.class("no_fitted_instance"),
                 };
                 obs.class(T);
                 let q = queries(c);
@@ -464,7 +471,7 @@ macro_rules! adapters {
                     Ok::<_, linfa_ftrl::FtrlError>(m)
                 }) {
                     Ok(Ok(m)) => m,
-                    _ => return obs.skip("fit_failed"),
+                    _ => return obs.class("no_fitted_instance"),
                 };
                 obs.class(T);
                 let q = queries(c);
